@@ -184,6 +184,9 @@ class World:
         os.makedirs(real, exist_ok=True)
         if s == 'pib':
             shutil.copyfile(self.template, os.path.join(real, 'pib.db'))
+            # a store made by `pyndnsec Init-Pib --path X` has its key files next to the database (X/ndnsec-key-file):
+            # what lies INSIDE a location in use is not a candidate for another setting
+            os.makedirs(os.path.join(real, 'ndnsec-key-file'), exist_ok=True)
         if obj == 'link':
             os.symlink(real, path)
 
